@@ -294,6 +294,11 @@ class Piece:
         self.ops.append(('body_end', None, text))
         return self
 
+    def insert_inline(self, anchor, text, nth=0):
+        """insert annotation text immediately after the nth code occurrence of anchor (e.g. a closure's `-> (r: T) ensures ..`)."""
+        self.ops.append(('inline', (anchor, nth), text))
+        return self
+
     def before_tail(self, text):
         """insert before the last line of the fn body (the tail expression line)."""
         self.ops.append(('before_tail', None, text))
@@ -414,7 +419,9 @@ class Piece:
                 if len(idxs) <= nth:
                     raise LostAnchor('splice anchor %r (#%d) not found in %s' % (anchor, nth, self.label))
                 p = idxs[nth]
-                if op == 'before':
+                if op == 'inline':
+                    add(p + len(anchor), t)
+                elif op == 'before':
                     add(_line_start(text, p), t + '\n')
                 else:
                     e = text.find('\n', p)
@@ -492,6 +499,11 @@ class LoopOps:
 
     def kind(self, kw):
         self.d['kind'] = kw
+        return self
+
+    def props(self, *props):
+        """properties this loop's invariants serve (a failing invariant is evidence against these only)."""
+        self.d['props'] = list(props)
         return self
 
     def iter(self, name):
